@@ -9,7 +9,7 @@ then the new step is −H'·f(x) and the iterate advances by it; f is evaluated 
 import sympy as sp
 
 from bsa import guards, paths, sym
-from bsa.hir import Missing
+from bsa.hir import Missing, peel, walk
 from rules import c07
 from rules.c08 import RInterp, NORM, loop_of
 
@@ -76,10 +76,79 @@ class BroydenInterp(RInterp):
         return RInterp.ev_Index(self, n)
 
 
+def _candidates(b, loop):
+    """Mutable locals declared before the loop and written inside it, split into square-matrix typed and vector typed ones."""
+    written = set()
+    for n in walk(loop["body"]):
+        if n.get("k") in ("Assign", "AssignOp") and peel(n["l"]).get("k") == "Local":
+            written.add(peel(n["l"])["name"])
+    mats, vecs = [], []
+    for n in walk(b["body"]):
+        if n.get("k") == "LetS" and n["pat"].get("k") == "Bind" and "Mut)" in n["pat"].get("mode", "") and n["pat"]["name"] in written:
+            ty = n["pat"].get("ty") or ""
+            if "Matrix<" not in ty:
+                continue
+            args = ty[ty.index("Matrix<") + 7:].split(",")
+            is_vec = len(args) > 2 and ("Const<1>" in args[2] or "U1" in args[2])
+            (vecs if is_vec else mats).append(n["pat"]["name"])
+    return mats, vecs
+
+
+class _Collect:
+    """A stand-in for `run` that only records whether every obligation of one role assignment holds."""
+    def __init__(self):
+        self.ok_ = True
+
+    def check(self, ok, *a, **k):
+        self.ok_ = self.ok_ and bool(ok)
+        return ok
+
+    def broken(self, *a, **k):
+        self.ok_ = False
+
+    def fail(self, *a, **k):
+        self.ok_ = False
+
+    def floor(self, rule, dp, what, n, floor, *a, **k):
+        self.ok_ = self.ok_ and n >= floor
+
+    def analysed(self, *a, **k):
+        pass
+
+    def ok(self, *a, **k):
+        pass
+
+
 def check(F, run, b, rule, path, dim=2, names=("jac_inv", "shift", "func_eval", "guess")):
-    """names = locals holding (inverse Jacobian, last step, last function value, iterate) at the loop head."""
+    """names = locals holding (inverse Jacobian, last step, last function value, iterate) at the loop head.  If those names are gone (renamed
+    locals), the roles are re-discovered: every assignment of the loop-carried matrix / vector locals to the four roles is tried and one
+    under which all obligations hold is accepted (the obligations are identities that no wrong assignment satisfies)."""
+    import itertools
     run.analysed(b)
     st, loop = loop_of(b)
+    have = {n["pat"]["name"] for n in walk(b["body"]) if n.get("k") == "LetS" and n["pat"].get("k") == "Bind"}
+    if not set(names) <= have:
+        mats, vecs = _candidates(b, loop)
+        found = None
+        if len(mats) >= 1 and 3 <= len(vecs) <= 5:
+            for m_ in mats:
+                for perm in itertools.permutations(vecs, 3):
+                    probe = _Collect()
+                    try:
+                        _check_roles(F, probe, b, rule, path, dim, (m_,) + perm, st, loop)
+                    except Exception:
+                        probe.ok_ = False
+                    if probe.ok_:
+                        found = (m_,) + perm
+                        break
+                if found:
+                    break
+        if found:
+            names = found
+    return _check_roles(F, run, b, rule, path, dim, names, st, loop)
+
+
+def _check_roles(F, run, b, rule, path, dim, names, st, loop):
     nH, ns, nf, nx = names
     BroydenInterp.DIM = d = dim
     H = sp.ImmutableMatrix(d, d, [sp.Symbol("H%d%d" % (i, j), real=True) for i in range(d) for j in range(d)])
